@@ -75,6 +75,13 @@ CLAIMED["C11"] = dict(
     ref="DESIGN.md 4/C11",
 )
 
+CLAIMED["C04"] = dict(
+    technique="structural inversion of the encoder pipeline against the spec-pinned decoder pipeline (stage lists, offset removal, DC prediction predictors/sign/scan direction), induced-order comparison of sort keys with the decoder's read order, loop-nest recognition for coefficient order, literal-argument check of the lossless path",
+    text="Pixel equality is behaviour and not decided. Decided: every encoder stage is the syntactic inverse of a pinned decoder stage composed in reverse order; DC prediction is undone with the same predictors in the reverse scan exactly for the parse codes the decoder de-predicts; coefficient, orientation, level, component and slice orders equal the decoder's read order; the lossless path is unquantised. With C11 these are the necessary structural conditions of exact reconstruction.",
+    note="Trusted: decoder stages equal the standard; quantisation at index 0 being the identity and clip being the identity in range are arithmetic facts not decided here.",
+    ref="DESIGN.md 4/C04",
+)
+
 NOT_APPLICABLE = {
     "C12": "arithmetic over unbounded integers (quantisation error bounds, monotonicity of a rational formula): no structural clause; needs algebra/solver or execution",
     "C13": "partition/telescoping identities of floor arithmetic on runtime sizes; the functions are spec-pinned arithmetic with nothing to decide from code shape",
